@@ -98,6 +98,17 @@ func (x *lmicro) apply(op string) string {
 	case "tomb":
 		code, _ := x.w.Do("POST", "/topic/tombstone?topic="+esc(p[1])+"&node=host-"+p[2]+":415"+p[2][1:])
 		return fmt.Sprint(code)
+	case "debug", "nodes", "topics", "channels":
+		// read-only endpoints that walk the registry: like lookup, only success is judged
+		url := "/" + p[0]
+		if p[0] == "channels" {
+			url += "?topic=" + esc(p[1])
+		}
+		code, _ := x.w.Do("GET", url)
+		if code != 200 {
+			return fmt.Sprintf("%s=%d", p[0], code)
+		}
+		return p[0]
 	case "lookup":
 		// a reader in the middle: its answer is not part of the outcome (any subset of the
 		// concurrent writers may be visible to it), it only has to succeed or say 404
